@@ -302,6 +302,9 @@ impl Signature for &str {
 }
 impl Marshal for &str {
     fn marshal(&self, ctx: &mut MarshalContext) -> Result<(), MarshalError> {
+        if self.contains('\0') {
+            return Err(crate::params::validation::Error::StringContainsNullByte.into());
+        }
         ctx.align_to(Self::alignment());
         crate::wire::util::write_string(self, ctx.byteorder, ctx.buf);
         Ok(())
